@@ -282,6 +282,15 @@ def rec_canon(bd):
     return _states(bd) + (bd.dead,)
 
 
+def _vk(v):
+    """Value as recorded: integral values stay integral and exact (an int turned into a float is another record)."""
+    if isinstance(v, (bool, np.bool_)):
+        return ("bool", bool(v))
+    if isinstance(v, (int, np.integer)):
+        return ("int", int(v))
+    return ("real", float(v))
+
+
 def _compare_records(lg, ref):
     """None or (kind, detail): the logger's stored records against the reference lists."""
     stats, locs = lg.stats, lg.stats_loc
@@ -294,8 +303,8 @@ def _compare_records(lg, ref):
         vals, ls = stats[k], locs[k]
         if len(vals) != len(want) or len(ls) != len(want):
             return K_NUM, dict(key=k, n_values=len(vals), n_locations=len(ls), expected=len(want))
-        if list(vals) != [w[0] for w in want]:
-            return K_VAL, dict(key=k, values=list(vals), expected=[w[0] for w in want])
+        if [_vk(v) for v in vals] != [_vk(w[0]) for w in want]:
+            return K_VAL, dict(key=k, values=[repr(v) for v in vals], expected=[repr(w[0]) for w in want])
         got = [(l[0], l[1]) for l in ls]
         if got != [(w[1], w[2]) for w in want]:
             return K_LOC, dict(key=k, locations=got, expected=[(w[1], w[2]) for w in want])
@@ -341,6 +350,9 @@ def rec_apply(bd, op):
         i = bd.nrec.get(k, 0)
         bd.nrec[k] = i + 1
         value = float((100 if k == "a" else 200) + 10 * (seed % 5) + i)
+        # number type of the recorded value: key a records floats, key b Python ints that no float64 represents exactly
+        if k == "b":
+            value = 2**53 + 1 + 2 * int(value)
         args = (k, value)
         kwargs = {}
         if e is not None:
@@ -451,8 +463,8 @@ def rec_on_state(bd, hist):
                 if len(x) != len(want) or len(y) != len(want):
                     col.violation(SIG.format(f"{cname}.get_stat", K_NUM), dict(hist=bd.hist, key=k, x_key=xk, x=x, y=y, expected_len=len(want)))
                     continue
-                if y != [w[0] for w in want]:
-                    col.violation(SIG.format(f"{cname}.get_stat", K_VAL), dict(hist=bd.hist, key=k, x_key=xk, y=y, expected=[w[0] for w in want]))
+                if [_vk(v) for v in y] != [_vk(w[0]) for w in want]:
+                    col.violation(SIG.format(f"{cname}.get_stat", K_VAL), dict(hist=bd.hist, key=k, x_key=xk, y=[repr(v) for v in y], expected=[repr(w[0]) for w in want]))
                     continue
                 if k == "episode_length" and xi == 2:
                     okx = all(a in w[2] for a, w in zip(x, want))
